@@ -644,6 +644,21 @@ def runLine (line : String) : String :=
     | "fq12" :: op :: args => orElse' (fieldOp fq12IO op args) fun _ => fq12Extra op args
     | "g1" :: op :: args => groupOp g1Ctx op args
     | "g2" :: op :: args => groupOp g2Ctx op args
+    | ["rnd", f, ws] => do
+      -- `Field::random` with an RNG that replays the given words (0 after the last one); output: the raw limbs
+      -- of the element as one number, and the number of `next_u64` calls made
+      let ws ← (ws.splitOn ",").mapM parseHex
+      let (n, bits, p) ← (match f with
+        | "fq" => some (6, 61, Mont.fqP.p)
+        | "fr" => some (4, 63, Mont.frP.p)
+        | _ => none)
+      let next : List Nat × Nat → (List Nat × Nat) × Nat := fun st =>
+        match st.1 with
+        | [] => (([], st.2 + 1), 0)
+        | x :: xs => ((xs, st.2 + 1), x)
+      match Mont.randomSpec next n bits p (ws.length / n + 2) (ws, 0) with
+      | none => pure "none"
+      | some (st, x) => pure (toHex (limbsToNat x) ++ " " ++ toString st.2)
     | "mfq" :: op :: args => Mont.montOp Mont.fqP op (args.mapM parseHex) |>.map (fun o => o.elim "none" toHex)
     | "lfq" :: op :: args => MontLimb.limbOp true op (args.mapM parseHex) |>.map (fun o => o.elim "none" toHex)
     | "lfr" :: op :: args => MontLimb.limbOp false op (args.mapM parseHex) |>.map (fun o => o.elim "none" toHex)
